@@ -158,3 +158,8 @@ package surveyor
 //@   before call:SetPrivate#1 assert p.p == pp && p.s == s
 //@
 // ---- end generated AddPipe contracts ----
+
+// ---- round 5 ----
+//@ func (*survey).start
+//@   ensures expire > 0 ==> called("AfterFunc") && s.timer != nil
+//@   ensures s.ctx.surv == s && s.sock.surveys[s.id] == s
